@@ -62,7 +62,8 @@ TATTR = KRec('TemplateAttribute', component_descriptor=DESC, label=Bytes, count=
 
 
 def register_attrs(reg):
-    c07.register_rp66(reg)
+    # the value decoders of the cells (representation codes) are verified here too: a table cell's values are what they decode
+    c07.register_rp66(reg, verify=True)
     I0 = 'old(ld.index)'
     B = 'ld.bytes'
     D = 'component_descriptor._desc'
